@@ -64,6 +64,11 @@ PLANS = {
         "thorough": [st("dbg", "join", 60000, 14, 16, 3000), st("rel", "join", 120000, 14, 16, 3000),
                      st("rel", "join", 600, 10, 16, 3000, far=1), st("asan", "join", 6000, 12, 16, 3000)],
     },
+    "C07": {
+        "quick": [st("dbg", "parjoin", 800, 8, 8), st("rel", "parjoin", 800, 8, 8)],
+        "thorough": [st("dbg", "parjoin", 20000, 8, 8, 3000), st("rel", "parjoin", 40000, 8, 8, 3000),
+                     st("tsan", "parjoin", 1600, 6, 8, 3000, max_pool=16)],
+    },
     "C08": with_storage("C08", world()),
     "C09": world(),
     "C11": {
@@ -110,6 +115,8 @@ RULES.update({
            "non-trivial = history with a remove-from-the-middle followed by a re-insert (dense swap-remove path) and, for slice-capable kinds, >=1 slice comparison",
     "C06": "45 macro-generated join shapes of arity 1-16 mixing &ReadStorage, &mut WriteStorage, &Entities, bit sets and their And/Or/Xor/Not combinations, AtomicBitSet, negated storages, .maybe(), restricted views, change sets (shared / mutable / by value) and drain over 19 storage kinds, run as join / lend_join.next / lend_join.for_each / lend_join.get+get_unchecked over hostile membership assignments (empty, singletons, dense runs, densities 1..2^-11, layer-boundary indices, entities awaiting maintain); "
            "non-trivial = configuration whose intersection is non-empty, differs from at least one member's own set and spans >=2 layer-0 words",
+    "C07": "16 parallel join shapes (entities, shared / mutable storages of every DistinctStorage kind, maybe, anti, bit sets, restricted views; arity 1-12) on rayon pools of 1, 2, 3, 4, 8, 16 and 64 threads, run as map+collect / for_each / fold+reduce with seeded per-item delays so stealing and producer splitting vary; "
+           "non-trivial = run in which >=2 threads delivered items and the joined indices span >=2 layer-1 words (>= 4096 apart); distinct = distinct (shape, pool, index->thread partition) signatures",
     "C11": "random system graphs (331 system-data shapes over 4 component storages + Entities + Read<LazyUpdate>, random DAG dependencies, barriers, thread-local systems, pools of 1-32 threads, 3-10 dispatches each); "
            "non-trivial = graph with >=2 systems sharing a storage of which >=1 writes and a dispatch in which >=2 systems overlapped in logical time",
     "C12": "the C04 operation sequences on the 11 tracked wrapper/inner combinations with a registered reader; window = one operation; event emission toggled at random points; clear() excluded; "
